@@ -447,6 +447,45 @@ class Outcome:
         sys.exit(0)
 
 
+def apalache_inductive(module, inv="IndInv", cinit="ConstInit", init="Init", indinit="IndInit", timeout=300, expect_violation=False):
+    """Inductive-invariant check with Apalache (symbolic, behaviours of ANY length): Init => inv at length 0 and
+    indinit /\\ Next => inv' at length 1.  An extra on top of the TLC runs: when apalache-mc is missing, times out or fails for a
+    reason other than a violated invariant the result says so (status 'unavailable') and nothing depends on it."""
+    work = sub("apalache-%s-%d" % (module, int(time.time() * 1000) % 100000))
+    t = time.time()
+    res = dict(module=module, invariant=inv, steps=[], status="proved")
+    try:
+        for (i0, ln) in ((init, 0), (indinit, 1)):
+            if expect_violation and ln == 0:
+                continue
+            cmd = ["apalache-mc", "check", "--out-dir=" + os.path.join(work, "out"), "--cinit=" + cinit, "--init=" + i0, "--inv=" + inv,
+                   "--length=%d" % ln, os.path.join(SPEC, module + ".tla")]
+            try:
+                p = subprocess.run(cmd, cwd=work, stdout=subprocess.PIPE, stderr=subprocess.STDOUT, text=True, timeout=timeout)
+            except (subprocess.TimeoutExpired, OSError) as e:
+                res["status"] = "unavailable: %s" % type(e).__name__
+                break
+            o = p.stdout
+            if "EXITCODE: OK" in o and "no error" in o:
+                res["steps"].append(dict(init=i0, length=ln, result="no error"))
+            elif "invariant" in o and "violated" in o:
+                res["steps"].append(dict(init=i0, length=ln, result="invariant violated"))
+                res["status"] = "violated"
+                break
+            else:
+                res["status"] = "unavailable: " + " ".join(o.split()[-12:])[:200]
+                break
+    finally:
+        shutil.rmtree(work, ignore_errors=True)
+    res["wall_s"] = round(time.time() - t, 1)
+    log("[apalache] %s %s: %s in %.1fs" % (module, inv, res["status"], res["wall_s"]))
+    if res["status"] == "violated" and not expect_violation:
+        raise ToolError("Apalache: %s is not inductive in %s (the specification must satisfy its own invariants)" % (inv, module))
+    if expect_violation and res["status"] == "proved":
+        raise ToolError("Apalache: negative control %s was NOT rejected" % module)
+    return res
+
+
 def stall_violation(out, st, what_driver):
     slots = [x.strip() for x in st.progress.split("\n") if x.strip() and not x.strip().endswith("\tidle")]
     out.add_violation([what_driver, "no-return", st.what[:80]], record=dict(in_flight=slots, worker=st.worker), validator="supervisor")
